@@ -41,6 +41,7 @@ CONSTANTS
   Endp = %(endp)s
   Remote = %(remote)s
   Gen = %(gen)s
+  ParkOK = %(park)s
 %(tail)s
 """
 
@@ -58,7 +59,7 @@ def _names(prefix, n, quote):
 
 def cfg(msgs=2, ips=2, srcs=2, dsts=1, nall="0,1", nip="0,1", nsrc="0,1", ndst="0,1", mb="1",
         maxops=1, fill=False, devs=(), eager=False, gen=False, tail=MC_TAIL, strings=False,
-        probers=0, spec="Spec", remote=False, endp=False, rawkey=False, special=False):
+        probers=0, spec="Spec", remote=False, endp=False, rawkey=False, special=False, park=False):
     """special: the key populations also contain the source key "null" (MAIL FROM:<>, limited under the empty
     domain) and the ip key "lo" (no TCP peer address: limited under 127.0.0.1)"""
     m = _names("m", msgs, strings)
@@ -71,7 +72,8 @@ def cfg(msgs=2, ips=2, srcs=2, dsts=1, nall="0,1", nip="0,1", nsrc="0,1", ndst="
                       nall=nall, nip=nip, nsrc=nsrc, ndst=ndst, mb=mb, maxops=maxops,
                       fill="TRUE" if fill else "FALSE",
                       devs=", ".join('"%s"' % d for d in devs),
-                      endp="TRUE" if endp else "FALSE", remote="TRUE" if remote else "FALSE", eager="TRUE" if eager else "FALSE", gen="TRUE" if gen else "FALSE", tail=tail)
+                      endp="TRUE" if endp else "FALSE", remote="TRUE" if remote else "FALSE", eager="TRUE" if eager else "FALSE", gen="TRUE" if gen else "FALSE", tail=tail,
+                      park="TRUE" if park else "FALSE")
 
 
 # exhaustive design configurations (deviations off): name -> (cfg text, workers)
@@ -149,7 +151,8 @@ def trace_cfg(odev, level):
     devs = sorted(set(odev) | set(w for f in odev.values() for w in f["match"].get("with", [])))
     return cfg(msgs=3, probers=3, ips=8, srcs=8, dsts=8, nall="0", nip="0", nsrc="0", ndst="0", mb="1",
                maxops=99, fill=True, devs=devs, eager=True, gen=False, tail=TRACE_TAIL, strings=True,
-               spec="TSpec", remote=level == "remote", endp=level == "endpoint", rawkey=True, special=True)
+               spec="TSpec", remote=level == "remote", endp=level == "endpoint", rawkey=True, special=True,
+               park=level == "api")
 
 
 def classify(ctx, verdicts, by_t, by_id, odev, selftest, stats, level):
@@ -225,6 +228,18 @@ def interesting(b):
     return any(len(v) > 1 for v in keys.values())
 
 
+def parked_over(b):
+    """a history in which something happens while a caller is held up at the yield point"""
+    h = b["hist"]
+    for i, s in enumerate(h):
+        if s["a"] == "Park":
+            rest = h[i + 1:]
+            j = next((x for x, t in enumerate(rest) if t["a"] == "Unpark" and t["m"] == s["m"]), len(rest))
+            if any(t["a"] in ("TakeMsg", "TakeDest") for t in rest[:j]):
+                return True
+    return False
+
+
 def special_key(s):
     """a step that uses the null reverse-path or a message without a TCP peer address"""
     return s["a"] == "TakeMsg" and (s["src"] == "null" or s["ip"] == "lo")
@@ -295,8 +310,8 @@ def run(ctx, replay):
         behs[0]["id"] = 1
         behs[0]["level"] = obj.get("level", behs[0].get("level", "api"))
     else:
-        n_real, n_small, n_fit, n_fill, n_rem, n_endp = (1800, 500, 500, 150, 500, 500) if thorough else \
-            (200, 50, 50, 30, 50, 50)
+        n_real, n_small, n_fit, n_fill, n_rem, n_endp, n_park = (1800, 500, 500, 150, 500, 500, 400) if thorough else \
+            (200, 50, 50, 30, 50, 50, 40)
         gens = {
             # the real table capacity, three callers, all four scopes
             "gen-real": (cfg(msgs=3, ips=3, srcs=2, dsts=2, nall="0,1,2", nip="0,1,2", nsrc="0,1,2",
@@ -324,13 +339,19 @@ def run(ctx, replay):
                                  ndst="0", mb=str(REAL_MB), maxops=2, eager=True, gen=True, endp=True,
                                  tail=GEN_TAIL, strings=True, special=True), n_endp, 60),
         }
+        # scheduling dimension Park/Unpark: a Take whose bucket has just granted the permit is held up while
+        # time passes and other keys make a table of 2 buckets (3 keys per scope) reap; one keyed scope at a time
+        # would be enough, all three are on/off
+        gens["gen-park"] = (cfg(msgs=3, ips=3, srcs=3, dsts=3, nall="0", nip="0,1", nsrc="0,1", ndst="0,1,2",
+                                mb="1", maxops=2, eager=True, gen=True, park=True,
+                                tail=GEN_TAIL, strings=True), n_park, 40)
         if thorough:
             # long histories: up to 3 x 21 = 63 deliveries
             gens["gen-long"] = (cfg(msgs=3, ips=3, srcs=2, dsts=2, nall="1,2", nip="0,1,2", nsrc="0,1,2",
                                     ndst="0,1,2", mb=str(REAL_MB), maxops=21, eager=True, gen=True,
                                     tail=GEN_TAIL, strings=True), 60, 700)
         gfut = {k: ex.submit(ctx.tlc, "Limits", None, name=k, workers=1, timeout=900,
-                             simulate=max(40, n // 2) if k != "gen-long" else 30, depth=d, cfg_text=t)
+                             simulate=(max(40, n // 2) if k != "gen-park" else 40 * n) if k != "gen-long" else 30, depth=d, cfg_text=t)
                 for k, (t, n, d) in gens.items()}
         # ---- (T) exhaustive model checking of the design, in the background -----------
         for name, (text, w) in mc_configs(thorough).items():
@@ -357,6 +378,9 @@ def run(ctx, replay):
             hot = [b for b in got if interesting(b)]
             cold = [b for b in got if not interesting(b)]
             pick = vlib.sample(ctx.rng, hot, n - n // 10) + vlib.sample(ctx.rng, cold, n // 10)
+            if k == "gen-park":
+                got = [b for b in got if parked_over(b)]
+                pick = stratified_pick(ctx.rng, got, [(lambda s: s["a"] == "Minute", n - n // 4)], n)
             if k == "gen-remote":
                 # strata: the next hop refuses MAIL / refuses the first RCPT of a domain / a further recipient on a
                 # connected domain / REQUIRETLS cannot be met / null reverse-path or no TCP peer address
